@@ -23,16 +23,32 @@ example {s : State Int}
 /-- the hypothesis is satisfiable: that history runs through -/
 example : ∃ s, run exEnv (init exEnv) (exOps2 ++ [.tell 2 7 7]) = .ok s := ⟨_, rfl⟩
 
-/-- A.2: no operation of this history marks a known point pending, so `data` and `pending_points` are disjoint -/
+/-- A.2: `data` and `pending_points` are disjoint (no proviso since the repair of `tell_pending`) -/
 example {s : State Int} (h : run exEnv (init exEnv) exOps2 = .ok s) : ∀ p ∈ s.data, p ∉ s.pending :=
-  lnd_data_pending_disjoint exEnv exOps2 (noRemark_of_B _ _ _ (by decide)) h
+  lnd_data_pending_disjoint exEnv exOps2 h
+
+/-- A.2: … also after explicit `tell_pending`s of known points -/
+example {s : State Int}
+    (h : run exEnv (init exEnv) (exOps2 ++ [.tellPending 2, .tellPending 4, .loss]) = .ok s) :
+    ∀ p ∈ s.data, p ∉ s.pending :=
+  lnd_data_pending_disjoint exEnv _ h
+
+/-- that history runs through -/
+example : ∃ s, run exEnv (init exEnv) (exOps2 ++ [.tellPending 2, .tellPending 4, .loss]) = .ok s :=
+  ⟨_, rfl⟩
+
+/-- A.2: `tell_pending` of the known point 2 returns the learner as it is -/
+example {s : State Int} (h : run exEnv (init exEnv) exOps = .ok s) : tellPending exEnv s 2 none = .ok s :=
+  lnd_tellPending_known_noop exEnv s 2 none
+    (((lnd_data_is_told exEnv exOps h).2.1 2).2 (by decide))
 
 /-- A.3: the point `ask` returns after the four corner values (4, inside the domain) stays pending while the
 learner is asked for its loss, told other points, asked without commitment -/
 example {s s' s'' : State Int} {rs : List (Pt × Int)} (h0 : run exEnv (init exEnv) exOps0 = .ok s)
     (h : ask exEnv s 1 true = .ok (rs, s')) (hp : 4 ∈ rs.map (·.1))
     (h2 : run exEnv s' [.loss, .tellPending 7, .ask 1 false] = .ok s'') : 4 ∈ s''.pending :=
-  (lnd_asked_pending_until_told exEnv 1 h 4 hp rfl).2 _ s''
+  (lnd_asked_pending_until_told exEnv 1 h 4 hp
+    (by rw [(lnd_data_is_told exEnv exOps0 h0).1]; decide) rfl).2 _ s''
     (by intro op hop; simp at hop; rcases hop with rfl | rfl | rfl <;> trivial) h2
 
 /-- A.4: a second value for point 2 is ignored -/
